@@ -679,6 +679,16 @@ class ExprMixin:
         return self.comprehension(n, as_list=True)
 
     def comprehension(self, n, as_list=True):
+        out = self.comprehension0(n, as_list)
+        if not self.spec and not getattr(self, "in_ghost", False):
+            # ghost: the k-th list a comprehension of the *code* produced on this path is `_comp<k>` for the clauses
+            # (like `_it<k>` for a loop's sequence), so that a clause can speak about the very list the code built
+            k = getattr(self, "comp_count", 0)
+            self.comp_count = k + 1
+            self.envs[0]["_comp%d" % k] = out.copy() if hasattr(out, "copy") else out
+        return out
+
+    def comprehension0(self, n, as_list=True):
         if len(n.generators) != 1:
             raise GenError("nested comprehension")
         g = n.generators[0]
